@@ -36,3 +36,25 @@ Proof.
   cbv zeta. split; [|split; reflexivity].
   intros i name j. destruct i as [|[|i]]; intros H; inversion H; subst; discriminate || (cbv; discriminate).
 Qed.
+(* ---- nesting depth back at file level: scope-trace model (Model/ScopeTrace.v over Gen/ScopeOps.v) *)
+From NV Require Import Model.ScopeBase Gen.ScopeOps Model.ScopeTrace Model.ScopeBody Proofs.ScopeTraceProofs.
+Local Open Scope Z_scope.
+
+(* after the closing brace of a function or user-defined type with a well-nested body the scope chain is [GlobalScope] again *)
+Theorem C07_depth_back_at_file_level : forall g hs E o cls gap nlo b nlc,
+  isglobal g -> opener_ok o cls -> last_ok hs -> gap_ok gap -> body b ->
+  exists q g', run (mkstate [g] hs E) (block_of o gap nlo b nlc) = Some q /\ chain q = [g'] /\ isglobal g' /\ last_ok (hist q).
+Proof. exact depth_back_at_file_level. Qed.
+Print Assumptions C07_depth_back_at_file_level.
+
+(* a whole file of skipped lines, plain statements, functions and user-defined types ends in the global scope *)
+Theorem C07_file_ends_at_global : forall f, file f -> forall g hs E, isglobal g -> last_ok hs ->
+  exists q g', run (mkstate [g] hs E) f = Some q /\ chain q = [g'] /\ isglobal g' /\ last_ok (hist q).
+Proof. exact file_ends_at_global. Qed.
+Print Assumptions C07_file_ends_at_global.
+
+(* inside a function: every unit of a well-nested body leaves the chain below it untouched and the tower of brace-less
+   structures above the stable scope empty *)
+Theorem C07_units_and_bodies : (forall u, unit1 u -> P u) /\ (forall b, body b -> Q b).
+Proof. exact units_and_bodies. Qed.
+Print Assumptions C07_units_and_bodies.
